@@ -64,6 +64,13 @@ CLAIMED = {
             note="Trusted: Coq kernel, extraction+driver, harness (identity bookkeeping: small ints and strings are treated as interned, other objects are identified by the harness). Batched parsing, batch_order's probing call and the per-row fallback are oracle-only. "
                  "One open finding (column-major batch of bare PMFs over a single action).",
             technique="Coq proof (case analysis over a value universe with identity) + extracted-model correspondence + scripted-learner oracle", design="§5 C15"),
+ "C16": dict(text="Coq theorems (C16/Props.v) over exact-rational models of the policies: for EVERY internal state (value estimates, counts, confidence values - hence after every history) the PMFs of Random, BanditEpsilon, "
+                  "BanditUCB and Corral are valid distributions (entries >= 0, exact sum 1, one entry per action); Corral's log-barrier step below the first pole keeps every weight strictly positive and the gamma-smoothing keeps a positive distribution; "
+                  "predict draws an in-range index whose probability is positive (C05). The models are compared with the learners' own _pmf on generated histories (changing action sets, on-policy and logged feedback); "
+                  "a validity/consistency oracle (action offered, probability = score, scores sum to 1, learn never raises, Corral weights positive) runs after every round.",
+            note="Trusted: Coq kernel, extraction+driver, harness. UCB's bonus (sqrt/log) is taken from the learner; Corral's root search is not modelled - its multiplier is recovered from the result and checked to explain every weight; "
+                 "that the search always ends and picks a root below the first pole is searched (stress histories), not proved (partial). Fixed needs action sets of its PMF's length.",
+            technique="Coq proof (exact-rational policy models, state-independent validity) + extracted-model correspondence + per-round oracle", design="§5 C16"),
 }
 NA_REASON = "check not built yet in this revision (planned, see DESIGN.md §8); no claim is made"
 def main():
